@@ -235,3 +235,73 @@ func VH_C12_pdf_gradient_doc() {
 	}
 	vAssert("C12.gradient.doc.shading_has_function", good)
 }
+
+// The alpha graphics state is shared by everything that is painted: a gradient painted after a
+// translucent colour must not inherit that colour's alpha (the rasterizer paints a gradient with
+// the alpha of its stops; here the stops are opaque).  Two draws: a fill in a colour with symbolic
+// alpha (1..254), then a fill or stroke with an opaque gradient; the alpha in effect at the second
+// painting operator (ISO 32000-1 8.4.5: the last /ca or /CA selected by gs) must be 1.
+func VH_C12_pdf_gradient_alpha_Q() {
+	vhC12Stubs()
+	a := vNondetByte()
+	vAssume(1 <= a && a <= 254)
+	c := color.RGBA{a, 0, 0, a} // premultiplied red
+	asStroke := vChoose(0, 1) == 1
+	g := canvas.NewLinearGradient(canvas.Point{X: 0, Y: 0}, canvas.Point{X: 10, Y: 0})
+	g.Add(0, canvas.Red)
+	g.Add(1, canvas.Blue)
+	p := vhC12Path(true)
+	buf := &bytes.Buffer{}
+	r := New(buf, 100, 100, &Options{Compress: false, SubsetFonts: true})
+	s1 := canvas.DefaultStyle
+	s1.Fill = canvas.Paint{Color: c}
+	r.RenderPath(p, s1, canvas.Identity)
+	mark, markArgs := r.w.Len(), len(vhC12Args)
+	if vhC12Recorded {
+		mark = len(vhC12Fmt)
+	}
+	s2 := canvas.DefaultStyle
+	if asStroke {
+		s2.Fill = canvas.Paint{}
+		s2.Stroke = canvas.Paint{Gradient: g}
+		s2.StrokeWidth = 1
+	} else {
+		s2.Fill = canvas.Paint{Gradient: g}
+	}
+	r.RenderPath(p, s2, canvas.Identity)
+	var t1, t2 []vhC12Tok
+	if vhC12Recorded {
+		t1 = vhC12Lex(vhC12Fmt[:mark], vhC12Args[:markArgs], true, nil)
+		t2 = vhC12Lex(vhC12Fmt[mark:], vhC12Args[markArgs:], true, nil)
+	} else {
+		t1 = vhC12Lex(string(r.w.Bytes()[:mark]), nil, false, nil)
+		t2 = vhC12Lex(string(r.w.Bytes()[mark:]), nil, false, nil)
+	}
+	var extg pdfDict
+	if v, ok := r.w.resources["ExtGState"]; ok {
+		extg, _ = v.(pdfDict)
+	}
+	// alpha selected by the last gs operator of a token list (fill alpha ca and stroke alpha CA
+	// are always set together by this writer); 1 if none
+	lastAlpha := func(toks []vhC12Tok, start float64) (float64, bool) {
+		al, ok := start, true
+		name := ""
+		for _, t := range toks {
+			if t.kind == vhC12Name {
+				name = t.str
+			} else if t.kind == vhC12Op && t.str == "gs" {
+				d, has := extg[pdfName(name)].(pdfDict)
+				v, isF := d["ca"].(float64)
+				ok = ok && has && isF
+				al = v
+			}
+		}
+		return al, ok
+	}
+	a1, ok1 := lastAlpha(t1, 1)
+	a2, ok2 := lastAlpha(t2, a1)
+	vAssert("C12.gradient.alpha.states_defined", ok1 && ok2)
+	want1 := float64(a) / 255
+	vAssert("C12.gradient.alpha.first_draw_translucent", a1-want1 <= 1e-6 && want1-a1 <= 1e-6)
+	vAssert("C12.gradient.alpha.gradient_painted_opaque", a2 == 1)
+}
